@@ -95,6 +95,10 @@ func Generate(genseed uint64, stream string, thorough bool) *Case {
 	}
 	// (twins and Mount are not combined: the wrappers' Mount path takes no per-digest lock)
 	remoteMount := stream == "remote" && genseed%3 == 0
+	zooRoot := -1
+	if (stream == "main" || stream == "rootpresent" || stream == "cancel") && r.Chance(1, 5) {
+		zooRoot = addLayerZoo(r, g) // every layer media type, distributable ones after >= 2 foreign ones
+	}
 	wideRoot := -1
 	if stream == "contention" && genseed%3 != 0 {
 		wideRoot = addWideFan(r, g) // an index over 8..14 fresh image manifests: more runnable tasks than any K
@@ -135,6 +139,8 @@ func Generate(genseed uint64, stream string, thorough bool) *Case {
 		return best
 	}
 	switch {
+	case zooRoot >= 0 && r.Chance(2, 3):
+		c.Root = zooRoot
 	case stream == "contention" && wideRoot >= 0:
 		c.Root = wideRoot
 	case stream == "contention":
@@ -587,6 +593,52 @@ func addBlobTwin(r *common.Rand, g *dag.Graph) {
 		nd.Bytes, nd.Desc = bs, desc(ix.MediaType, bs)
 		g.Nodes = append(g.Nodes, nd)
 	}
+}
+
+// addLayerZoo appends an image manifest whose layer list mixes every layer media type the code
+// distinguishes: two or three non-distributable (foreign) layers of different types with distributable
+// layers (tar, tar+gzip, tar+zstd, docker) between and after them, in a PRNG order that always has a
+// distributable layer after the second foreign one.  Returns the manifest.
+func addLayerZoo(r *common.Rand, g *dag.Graph) int {
+	desc := func(mt string, bs []byte) ocispec.Descriptor {
+		return ocispec.Descriptor{MediaType: mt, Digest: digest.FromBytes(bs), Size: int64(len(bs))}
+	}
+	add := func(kind, mt, tag string) *dag.Node {
+		bs := []byte(fmt.Sprintf("zoo-%s-%d-%x", tag, len(g.Nodes), r.U64()))
+		n := &dag.Node{ID: len(g.Nodes), Kind: kind, Bytes: bs, Desc: desc(mt, bs), Subject: -1, TwinOf: -1}
+		g.Nodes = append(g.Nodes, n)
+		return n
+	}
+	cfg := add(dag.KConfig, ocispec.MediaTypeImageConfig, "cfg")
+	foreignTypes := []string{ocispec.MediaTypeImageLayerNonDistributable, ocispec.MediaTypeImageLayerNonDistributableGzip,
+		ocispec.MediaTypeImageLayerNonDistributableZstd, dag.MTDockerForeignLayer}
+	plainTypes := []string{ocispec.MediaTypeImageLayer, ocispec.MediaTypeImageLayerGzip, ocispec.MediaTypeImageLayerZstd, dag.MTDockerLayer}
+	common.Shuffle(r, foreignTypes)
+	common.Shuffle(r, plainTypes)
+	var layers []*dag.Node
+	f1, f2 := add(dag.KForeign, foreignTypes[0], "f1"), add(dag.KForeign, foreignTypes[1], "f2")
+	a, b := add(dag.KBlob, plainTypes[0], "a"), add(dag.KBlob, plainTypes[1], "b")
+	layers = []*dag.Node{f1, a, f2, b}
+	if r.Bool() {
+		layers = []*dag.Node{a, f1, f2, b}
+	}
+	if r.Bool() {
+		layers = append(layers, add(dag.KForeign, foreignTypes[2], "f3"), add(dag.KBlob, plainTypes[2], "c"))
+	}
+	if r.Bool() {
+		layers = append(layers, add(dag.KBlob, plainTypes[3], "d"))
+	}
+	m := ocispec.Manifest{MediaType: ocispec.MediaTypeImageManifest, Config: cfg.Desc}
+	m.SchemaVersion = 2
+	im := &dag.Node{ID: len(g.Nodes), Kind: dag.KImage, Subject: -1, TwinOf: -1, Succ: []int{cfg.ID}}
+	for _, l := range layers {
+		m.Layers = append(m.Layers, l.Desc)
+		im.Succ = append(im.Succ, l.ID)
+	}
+	bs, _ := json.Marshal(m)
+	im.Bytes, im.Desc = bs, desc(m.MediaType, bs)
+	g.Nodes = append(g.Nodes, im)
+	return im.ID
 }
 
 // addWideFan appends 8..14 image manifests, each over its own fresh layer blob and a shared config, and an
